@@ -45,7 +45,7 @@ pub struct PlCase {
     pub ops: Vec<Op>,
 }
 
-const SHAPES: u8 = 40;
+const SHAPES: u8 = 45;
 
 fn pl_strategy() -> impl Strategy<Value = PlCase> {
     let op = (prop_oneof![2 => Just(0u8), 3 => Just(1u8), 2 => Just(2u8), 1 => Just(3u8)], 0u8..SHAPES, any::<u16>(), any::<u16>(), 0u8..WORDS.len() as u8, prop::bool::weighted(0.2)).prop_map(|(by, shape, a, b, word, envelope)| Op { by, shape, a, b, word, envelope });
@@ -115,6 +115,14 @@ fn command(op: &Op, pop: &RPop, w: &World, capsule: &Json) -> (&'static str, Str
         36 => ("kql:read", "FIND(?c) WHERE { ?c CONCEPT {governance: {classification: \"secret\"}} }".into(), Json::Null),
         37 => ("meta:history", "HISTORY SPACE LIMIT 3".into(), Json::Null),
         38 => ("meta:search", "SEARCH COGNITION :t".into(), json!({"t": wd})),
+        // ---- derivation statements whose outputs are elements that ALREADY exist and that the same
+        // statement also edits: governance propagates along material inputs onto what a statement
+        // CREATES; an element committed earlier keeps its block (seeded change C19-2)
+        40 => ("kml:derive_onto_existing", "MUTATE { UPDATE :o SET ATTRIBUTES { rank: 7 } CREATE ACTIVITY ?act { SET FIELDS {activity_class: \"Consolidation\", status: \"completed\"} SET STRUCTURAL { (\"inputs\", :i) (\"outputs\", :oe) } } }".into(), json!({"o": pickc(a), "oe": endpoint(&pickc(a)), "i": endpoint(&any(b))})),
+        41 => ("kml:derive_onto_existing", "MUTATE { CREATE ACTIVITY ?act { SET FIELDS {activity_class: \"Consolidation\", status: \"completed\"} SET STRUCTURAL { (\"inputs\", :i) (\"outputs\", :oe) } } UPDATE :o SET FIELDS { name: :w } }".into(), json!({"o": pickc(a), "oe": endpoint(&pickc(a)), "i": endpoint(&any(b)), "w": wd})),
+        42 => ("kml:derive_onto_existing", "MUTATE { UPDATE :o SET ATTRIBUTES { note: :w } CREATE ACTIVITY ?act { SET FIELDS {activity_class: \"inference\", status: \"running\"} SET STRUCTURAL { (\"inputs\", :i) (\"inputs\", :j) (\"outputs\", :oe) } } }".into(), json!({"o": pickc(a), "oe": endpoint(&pickc(a)), "i": endpoint(&any(b)), "j": endpoint(&any(b.wrapping_mul(31).wrapping_add(7))), "w": wd})),
+        43 => ("kml:derive_onto_existing", "MUTATE { UPDATE :o SET ATTRIBUTES { rank: 9 } CREATE EVIDENCE ?e { SET FIELDS { evidence_class: \"user_statement\", payload: :w } SET STRUCTURAL { (\"source\", :i) } } CREATE ACTIVITY ?act { SET FIELDS {activity_class: \"Consolidation\", status: \"completed\"} SET STRUCTURAL { (\"inputs\", ?e) (\"inputs\", :i) (\"outputs\", :oe) } } }".into(), json!({"o": pickc(a), "oe": endpoint(&pickc(a)), "i": endpoint(&any(b)), "w": wd})),
+        44 => ("kml:derive_onto_existing", "CREATE ACTIVITY ?act { SET FIELDS {activity_class: \"Consolidation\", status: \"completed\"} SET STRUCTURAL { (\"inputs\", :i) (\"outputs\", :oe) } }".into(), json!({"oe": endpoint(&pickc(a)), "i": endpoint(&any(b))})),
         _ => ("kml:correct", "MUTATE { CREATE EVIDENCE ?n { SET FIELDS { evidence_class: \"user_statement\", payload: \"fix\" } } CORRECT EVIDENCE :old BY ?n }".into(), json!({"old": of(Kind::Evidence, a)})),
     }
 }
